@@ -284,6 +284,129 @@ TUS = ["src/xercesc/util/XMLChar.cpp", "src/xercesc/util/MsgLoaders/InMemory/InM
        "src/xercesc/internal/XMLReader.cpp"]
 
 
+CHARDATA = [("IGXMLScanner::scanCharData", "src/xercesc/internal/IGXMLScanner2.cpp"),
+            ("DGXMLScanner::scanCharData", "src/xercesc/internal/DGXMLScanner.cpp"),
+            ("SGXMLScanner::scanCharData", "src/xercesc/internal/SGXMLScanner.cpp"),
+            ("WFXMLScanner::scanCharData", "src/xercesc/internal/WFXMLScanner.cpp")]
+
+
+def _ifs_to(node, pred, chain, out):
+    """chains of enclosing `if` nodes (outermost first) of every call satisfying pred."""
+    if not isinstance(node, list) or not node:
+        return
+    if isinstance(node[0], list):
+        for c in node:
+            _ifs_to(c, pred, chain, out)
+        return
+    if node[0] == "c" and pred(node):
+        out.append(list(chain))
+    if node[0] == "if":
+        chain = chain + [node]
+    for c in node[1:]:
+        if isinstance(c, list):
+            _ifs_to(c, pred, chain, out)
+
+
+def _machine_shape(node, is_emit):
+    """is the subtree made only of if / block / assignments to one local / the emit call?  -> (ok, set of assigned locals)"""
+    assigned = set()
+
+    def walk(n):
+        if n is None:
+            return True
+        t = n[0]
+        if t == "block":
+            return all(walk(c) for c in n[1])
+        if t == "if":
+            return walk(n[2]) and walk(n[3])
+        if t == "expr":
+            x = n[1]
+            if x[0] == "b" and x[1] == "=" and x[2][0] == "l":
+                assigned.add(x[2][1])
+                return True
+            return x[0] == "c" and is_emit(x)
+        return False
+    return walk(node), assigned
+
+
+def cdend_rule(rep):
+    rep.rule("C02.c", "the `]]>` detector of character data (XML 1.0 production [14] CharData): in scanCharData of each scanner the "
+             "statement that keeps the bracket state machine up to date, folded over every (state, character class, escaped) "
+             "combination, implements exactly: `]` takes Waiting->GotOne, GotOne->GotTwo, GotTwo->GotTwo; `>` in GotTwo reports "
+             "BadSequenceInCharData; `>` and every other character return to Waiting; a character that came from a character "
+             "reference never advances the machine. A machine that forgets the two brackets on a third one accepts `]]]>`")
+    is_emit = lambda x: x[0] == "c" and x[1].endswith("::emitError") and any(
+        isinstance(a, list) and a and a[0] == "e" and a[1] == "XMLErrs::BadSequenceInCharData" for a in x[3])
+    pat = "^(" + "|".join(q.replace("::", "::") for q, _ in CHARDATA) + ")$"
+    g = core.run_xa([os.path.join(core.REPO, fl) for _, fl in CHARDATA], st=pat, tables=r"^ch(CloseSquare|CloseAngle)$", flat=False)
+    CS, CA = g.table("chCloseSquare")["v"], g.table("chCloseAngle")["v"]
+    if (CS, CA) != (0x5D, 0x3E):
+        raise AnalysisBroken("chCloseSquare / chCloseAngle are not U+005D / U+003E")
+    n = 0
+    for q, fl in CHARDATA:
+        body = g.st(q)["body"]
+        chains = []
+        _ifs_to(body, is_emit, [], chains)
+        if len(chains) != 1:
+            raise AnalysisBroken("%s: expected exactly one BadSequenceInCharData report, found %d" % (q, len(chains)))
+        node = None
+        for cand in chains[0]:
+            ok, assigned = _machine_shape(cand, is_emit)
+            if ok and len(assigned) == 1:
+                node = cand
+                break
+        if node is None:
+            raise AnalysisBroken("%s: the statement updating the `]]>` state machine is not of the modelled shape" % q)
+        S = list(assigned)[0]
+        # free variables of the machine and their finite domains
+        chars, bools, states = {}, set(), {}
+        for x in core.sx_walk(node):
+            if not isinstance(x, list) or not x:
+                continue
+            if x[0] == "e" and "::State_" in x[1]:
+                states[x[1].split("::")[-1]] = x[2]
+            if x[0] == "b" and x[1] in ("==", "!=") and x[2][0] == "l" and x[2][1] != S and x[3][0] in ("g", "i"):
+                chars.setdefault(x[2][1], set())
+            elif x[0] == "l" and x[1] != S:
+                bools.add(x[1])
+        bools -= set(chars)
+        want_states = {"State_Waiting", "State_GotOne", "State_GotTwo"}
+        if set(states) != want_states or len(chars) != 1 or len(bools) != 1:
+            raise AnalysisBroken("%s: `]]>` machine has states %s, character variables %s, flags %s — not the modelled shape" % (
+                q, sorted(states), sorted(chars), sorted(bools)))
+        CH, ESC = list(chars)[0], list(bools)[0]
+        W, G1, G2 = states["State_Waiting"], states["State_GotOne"], states["State_GotTwo"]
+        name = {W: "Waiting", G1: "GotOne", G2: "GotTwo"}
+        for st0 in (W, G1, G2):
+            for ch, cname in ((CS, "]"), (CA, ">"), (0x41, "other")):
+                for esc in (0, 1):
+                    emitted = []
+
+                    def call(x, env, emitted=emitted):
+                        if is_emit(x):
+                            emitted.append(1)
+                            return 0
+                        raise sxeval.Unmodelled("call in the `]]>` state machine")
+                    env = sxeval.run_env(node, {S: st0, CH: ch, ESC: esc, "chCloseSquare": CS, "chCloseAngle": CA, "__call__": call})
+                    got = (env[S], bool(emitted))
+                    if esc:
+                        want = (W, False)
+                    elif ch == CS:
+                        want = ({W: G1, G1: G2, G2: G2}[st0], False)
+                    elif ch == CA:
+                        want = (W, st0 == G2)
+                    else:
+                        want = (W, False)
+                    n += 1
+                    key = "%s/%s/%s%s" % (q, name[st0], cname, "/escaped" if esc else "")
+                    rep.ob("C02.c", key, got == want, "-> %s%s" % (name[got[0]], ", reports" if got[1] else "") if got == want else
+                           "%s: in state %s a %s`%s` goes to %s%s; the production requires %s%s" % (
+                               q, name[st0], "character-reference " if esc else "", cname, name.get(got[0], got[0]),
+                               " and reports BadSequenceInCharData" if got[1] else " without a report", name[want[0]],
+                               " and a BadSequenceInCharData report" if want[1] else " without a report"), fl)
+    rep.floor("C02.c", n, 72)
+
+
 def run(rep):
     tus = [os.path.join(core.REPO, t) for t in TUS]
     diag_tus = diag.tus_for("C02")
@@ -296,6 +419,7 @@ def run(rep):
     rep.units.update(os.path.relpath(t, core.REPO) for t in alltus)
     table_rule(rep, f)
     accessor_rule(rep, f)
+    cdend_rule(rep)
     cls_of, items = severity_rule(rep, f)
     messages_rule(rep, f, cls_of, items)
     diag.run(rep, f, "C02")
